@@ -2,6 +2,8 @@ import Driver.Common
 import CoapVerif.Model.BlockOpt
 import CoapVerif.Model.BlockOptWire
 import CoapVerif.Spec.BlockOpt
+import CoapVerif.Model.BlockOptXfer
+import CoapVerif.Spec.BlockOptXfer
 /-! Driver for C19: `model` follows Model/BlockOpt (generated constants), `spec` follows Spec/BlockOpt (RFC only). -/
 namespace Driver.C19
 open CoapVerif CoapVerif.Model.BlockOpt
@@ -104,8 +106,32 @@ def handleWenc (spec : Bool) (id _coder s n m : String) : String :=
           | .error e => s!"sent {toHex bs} {fmtErr (some e)}"
     | _, _, _, _ => "bad-op"
 
+/-- `xfer <dl|ul|wm> <szx> <maxMsg> <body> <num>`: the codec inside a transfer (Model/BlockOptXfer, Spec/BlockOptXfer) -/
+def handleXfer (spec : Bool) (way s mx body num : String) : String :=
+  match s.toNat?, mx.toNat?, body.toNat?, num.toNat? with
+  | some s, some mx, some body, some num =>
+    if spec then
+      match Spec.BlockOptXfer.expect s mx body num with
+      | .unjudged => "skip"
+      | .refuse => "err"
+      | .serve v l => s!"ok {v} {l}"
+      | .serveOrRefuse v l => s!"ok? {v} {l}"
+    else
+      let w? : Option Model.BlockOptXfer.Way :=
+        if way == "dl" then some .dl else if way == "ul" then some .ul else if way == "wm" then some .wm else none
+      match w? with
+      | none => "bad-op"
+      | some w =>
+        match Model.BlockOptXfer.xfer w s mx body num with
+        | .block v l => s!"ok {v} {l}"
+        | .refused (some e) => s!"err {e.toString}"
+        | .refused none => "err other"
+        | .skip => "skip"
+  | _, _, _, _ => "bad-op"
+
 def handle (spec : Bool) (line : String) : String :=
   match words line with
+  | ["xfer", way, s, mx, body, num] => handleXfer spec way s mx body num
   | ["dec", v] =>
     match v.toNat? with
     | some v =>
